@@ -290,6 +290,13 @@ fn operand_json<'tcx>(
                 ty::FnDef(did, args) => {
                     o.put("fn", J::s(key(tcx, *did)));
                     o.put("fn_path", J::s(tcx.def_path_str_with_args(*did, args)));
+                    // a trait method used as a function value (`map_err(ScnrError::from)`): the impl it resolves to
+                    if let Ok(Some(inst)) = ty::Instance::try_resolve(tcx, env, *did, args) {
+                        let rd = inst.def_id();
+                        if rd != *did {
+                            o.put("fn_resolved", J::s(key(tcx, rd)));
+                        }
+                    }
                 }
                 ty::Ref(..) | ty::RawPtr(..) => {
                     if let mir::Const::Val(mir::ConstValue::Scalar(rustc_middle::mir::interpret::Scalar::Ptr(p, _)), _) = c.const_ {
